@@ -25,10 +25,11 @@ def walker(s, ctx=None, tolerant=False, **kw):
     return LatexWalker(s, latex_context=ctx, tolerant_parsing=tolerant, **kw)
 
 
-def parse(s, ctx=None, tolerant=False, **kw):
-    """Parse the whole string into a node list with the general nodes parser."""
+def parse(s, ctx=None, tolerant=False, parser=None, **kw):
+    """Parse the whole string into a node list with the general nodes parser (a given parser object is
+    re-used as is)."""
     lw = walker(s, ctx, tolerant, **kw)
-    nodes, _ = lw.parse_content(LatexGeneralNodesParser())
+    nodes, _ = lw.parse_content(parser if parser is not None else LatexGeneralNodesParser())
     return nodes
 
 
